@@ -521,6 +521,7 @@ LEVEL_TEXT = (
     "groups incl. vmap-batched, singular/ill-conditioned/zero covariance factors, scalings 1e-12..1e12) compared with dense "
     "formulas at 1e-9 (correlation-normalised, condition-aware). Exploration is the right level: the property is a finite set of "
     "algebraic identities over a continuous input space with a cheap exact oracle."
+    ' Shapes up to 9 coefficients and 5 dimensions.'
 )
 LEVEL_NOTE = (
     "Trusted: NumPy/LAPACK float64 for the reference; comparison skipped (counted) where cond(S) > 1e9 makes the backward "
